@@ -135,3 +135,59 @@ pub open spec fn load_values_iter(t: St, bs: Seq<ContextBinding>, ex: int, mb: R
         load_value_effect(t1, is_ext(bs[j]), freg(2 * (ex + j) + 4), freg(2 * (ex + j) + 5), mb, ff - i, share)
     }
 }
+
+// ---- objects of any size: linked blocks --------------------------------------------------------------
+
+/// effect of `store_fields`: the bindings `bs` (environment positions rem ..) are stored right to left into a
+/// chain of blocks - at most 3 values in the last block, 2 values and the link to the previously filled block
+/// in every other one; every filled block is `HEAP` (x2), and after filling it a new block is acquired into
+/// the first register after the variables still to be stored. An empty object is marked by a null pointer.
+pub open spec fn store_fields_effect(t: St, bs: Seq<ContextBinding>, rem: int, last: bool) -> St
+    decreases bs.len(),
+{
+    let n = bs.len() as int;
+    if n == 0 {
+        if last { wr(t, freg(2 * rem + 4), 0) } else { t }
+    } else {
+        let t1 = if !last { step(Code::SW(freg(2 * (rem + n) + 4), Register(2), 48i64), t) } else { t };
+        let cap = if last { 3int } else { 2int };
+        let rest = if n <= cap { 0int } else { n - cap };
+        let t2 = store_values_effect(t1, bs.subrange(rest, n), rem + rest, Register(2), cap);
+        let t3 = acquire_effect(t2, freg(2 * (rem + rest) + 4), freg(2 * (rem + rest) + 5));
+        store_fields_effect(t3, bs.subrange(0, rest), rem, false)
+    }
+}
+
+/// effect of `load_fields`: the chain of blocks is walked first to last; the pointer to the block holding the
+/// values `bs[rest..n]` is in the first register after the variables loaded before. A block is put on the
+/// reusable free list before its fields are read iff the object is not shared (`!share`).
+pub open spec fn load_fields_effect(t: St, bs: Seq<ContextBinding>, ex: int, last: bool, share: bool) -> St
+    decreases bs.len(),
+{
+    let n = bs.len() as int;
+    if n == 0 { t } else {
+        let cap = if last { 3int } else { 2int };
+        let rest = if n <= cap { 0int } else { n - cap };
+        let ta = load_fields_effect(t, bs.subrange(0, rest), ex, false, share);
+        let next = bs.subrange(rest, n);
+        let mb = freg(2 * (ex + rest) + 4);
+        let t1 = if !share { release_effect(ta, rd(ta, mb)) } else { ta };
+        let t2 = if !last { step(Code::LW(freg(2 * (ex + n) + 4), mb, 48i64), t1) } else { t1 };
+        load_values_iter(t2, next, ex + rest, mb, cap, share, next.len() as int)
+    }
+}
+
+/// effect of `Memory::load`: the reference count decides between taking the object apart (count 0: blocks
+/// released, children moved) and copying it (count > 0: count decremented, children shared)
+pub open spec fn load_effect(t: St, bs: Seq<ContextBinding>, ex: int) -> St {
+    if bs.len() == 0 { t } else {
+        let mb = freg(2 * ex + 4);
+        let t1 = step(Code::LW(Register(1), mb, 0i64), t);
+        if rd(t1, Register(1)) == 0 {
+            load_fields_effect(t1, bs, ex, true, false)
+        } else {
+            let t2 = step(Code::SW(Register(1), mb, 0i64), step(Code::ADDI(Register(1), Register(1), -1i64), t1));
+            load_fields_effect(t2, bs, ex, true, true)
+        }
+    }
+}
